@@ -15,6 +15,7 @@ mod des;
 mod fam_block;
 mod fam_expiry;
 mod fam_hostile;
+mod fam_isolation;
 mod fam_observe;
 mod fam_sink;
 mod fam_wire;
@@ -129,7 +130,7 @@ fn props() -> Vec<PropCfg> {
             id: "C11",
             family: "hostile",
             level: "exploration",
-            quick_runs: 300_000,
+            quick_runs: 120_000,
             thorough_runs: 5_000_000,
             rule: "One evaluation = one seeded simulated run of the `hostile` family: 1-3 hostile senders with 1-8 parseable adversarial requests each (option bloat 0-1400 bytes, Block1/Block2 with num in {0,1,2,16,17,100,1023..1025,4095} x szx 0-7 x more, malformed block option bytes, payloads 0-1200, all four message types, unknown methods, invalid UTF-8 paths), adversarial application replies (large options, own Block2, bodies 0-10000), budgets {0..64, 1152, 0..5000, request overhead+11/+12/+13, overhead+12+2^k+-1}, mixed into cooperative transfers on the same keys (half of the hostile lanes share a cooperative client's endpoint), with link corruption on. Every handler entry is wrapped in catch_unwind; hook snapshots of the per-key upload buffer are taken around every intercept_request. Distinct non-trivial = distinct abstract descriptors of hostile or corrupted requests fed to the handler: (type, method, Block1 class, Block2 class, payload bucket, overhead+12 vs budget relation, overhead>1280, handler outcome).",
             assumptions: &["uses the cfg(coap_lite_verif) snapshot hook for the buffer-growth clauses", "sampling: a clean batch is evidence, not proof"],
@@ -184,6 +185,21 @@ fn props() -> Vec<PropCfg> {
             real: REAL_BLOCK,
             stub: STUB_BLOCK,
         },
+        PropCfg {
+            id: "C12",
+            family: "isolation",
+            level: "exploration",
+            quick_runs: 300_000,
+            thorough_runs: 5_000_000,
+            rule: "One evaluation = one seeded run of the `isolation` family: 2-3 scripted transfers (uploads incl. upload-then-download, or downloads incl. early negotiation; 2-5 blocks; scripted reply losses with retransmission and duplicated blocks) whose cache keys pairwise differ in exactly one of endpoint / method / path (segmentation [a,b] vs [a/b], prefixes, case, empty path vs one empty segment) are interleaved by a seeded scheduler (uniform or PCT-style priorities with change points; optionally split-phase: request, other clients' exchanges, then application + response), and each is re-run solo against a fresh handler; reply transcripts must be byte-identical. Non-trivial = runs with at least one switch between transfers; distinct = distinct (shape, server-step order) interleavings by 64-bit hash. coverage.interleavings gives reached/possible for the 2-transfer, non-split shapes (possible = binomial(n1+n2, n1)).",
+            assumptions: &[
+                "the property's quantifier says 'exhaustively enumerated'; this technique samples: exhaustive=false, reached/possible reported per shape",
+                "client behaviour is a function of its materialised script and of the replies it receives (no timers, no latencies in this family)",
+                "the application stub is deterministic per (endpoint, method, path, invocation count)",
+            ],
+            real: REAL_BLOCK,
+            stub: &["scheduler (which client's next datagram the server processes; split-phase points)", "client state machines with scripted losses / duplicates", "server loop glue", "application"],
+        },
     ]
 }
 
@@ -212,6 +228,7 @@ fn run_family(family: &str, ch: &mut Ch, verbose: bool) -> Result<Outcome, Strin
         "sink" => Ok(fam_sink::run(ch, verbose)),
         "observe" => Ok(fam_observe::run(ch, verbose)),
         "expiry" => Ok(fam_expiry::run(ch, verbose)),
+        "isolation" => Ok(fam_isolation::run(ch, verbose)),
         _ => Err(format!("unknown family {}", family)),
     }
 }
@@ -262,6 +279,7 @@ struct Agg {
     new_viol: BTreeMap<u64, Violation>,
     known_hits: BTreeMap<usize, u64>,
     other_props: BTreeMap<String, u64>,
+    groups: BTreeMap<String, BTreeSet<u64>>,
 }
 
 impl Agg {
@@ -278,6 +296,7 @@ impl Agg {
             new_viol: BTreeMap::new(),
             known_hits: BTreeMap::new(),
             other_props: BTreeMap::new(),
+            groups: BTreeMap::new(),
         }
     }
     fn merge(&mut self, o: Agg) {
@@ -297,6 +316,9 @@ impl Agg {
         }
         for (k, v) in o.other_props {
             *self.other_props.entry(k).or_insert(0) += v;
+        }
+        for (k, v) in o.groups {
+            self.groups.entry(k).or_default().extend(v);
         }
     }
 }
@@ -344,6 +366,9 @@ fn batch(family: &str, prop: Option<&str>, base_seed: u64, runs: u64, threads: u
                     a.distinct2.extend(o.distinct2.iter().copied());
                     if keep_hashes {
                         a.hashes.insert(i, o.hash);
+                    }
+                    for (g, h) in &o.groups {
+                        a.groups.entry(g.clone()).or_default().insert(*h);
                     }
                     for v in &o.violations {
                         if prop.map_or(true, |p| p == v.prop) {
@@ -581,6 +606,28 @@ fn cmd_run(args: &[String]) -> Result<i32, String> {
         .set("violations_of_other_properties_seen", J::Obj(agg.other_props.iter().map(|(k, n)| (k.clone(), J::u(*n))).collect()))
         .set("replay_files", J::Arr(reported.iter().map(|p| J::s(p.clone())).collect()))
         .set("repo_rev", J::s(repo_rev()));
+    if !agg.groups.is_empty() {
+        // interleavings reached / possible per shape (2 transfers: binomial)
+        let mut arr = Vec::new();
+        let (mut reached_all, mut possible_all) = (0u64, 0u64);
+        for (g, set) in &agg.groups {
+            let nums: Vec<u64> = g.split(|c: char| !c.is_ascii_digit()).filter(|x| !x.is_empty()).filter_map(|x| x.parse().ok()).collect();
+            let possible = if nums.len() >= 3 {
+                let (a, b) = (nums[1], nums[2]);
+                let mut c: u128 = 1;
+                for k in 0..a.min(b) {
+                    c = c * ((a + b - k) as u128) / ((k + 1) as u128);
+                }
+                c as u64
+            } else {
+                0
+            };
+            reached_all += set.len() as u64;
+            possible_all += possible;
+            arr.push(J::obj().set("shape", J::s(g.clone())).set("reached", J::u(set.len() as u64)).set("possible", J::u(possible)));
+        }
+        cov.put("interleavings", J::obj().set("reached", J::u(reached_all)).set("possible", J::u(possible_all)).set("per_shape", J::Arr(arr)));
+    }
     let mut evaluations = agg.units;
     let mut violations = agg.new_viol.len() as u64;
     let mut wall_total = wall;
